@@ -5,5 +5,5 @@ here="$(cd "$(dirname "$0")/.." && pwd)"
 {
   echo "##### confirm $id"; "$here/tools/confirm_seed.sh" "$id" "$crate" "$filter" "$@"
   echo "##### check $id --tier $tier against the seeded worktree"
-  "$here/tools/mutant_run.sh" /tmp/seed-$id "$id" --tier "$tier" 2>&1 | grep -E "^(VIOLATION|KNOWN|OK|MACHINERY|  fingerprint|C[0-9]+ tier|error)" | cut -c1-400
-} > /var/tmp/cycle-$id.log 2>&1
+  "$here/tools/mutant_run.sh" /tmp/${SEED_PREFIX:-seed}-$id "$id" --tier "$tier" 2>&1 | grep -E "^(VIOLATION|KNOWN|OK|MACHINERY|  fingerprint|C[0-9]+ tier|error)" | cut -c1-400
+} > /var/tmp/cycle-${SEED_PREFIX:-seed}-$id.log 2>&1
